@@ -289,6 +289,30 @@ func c14Units(ctx *core.Ctx) []core.Unit {
 		// the same *Element / *fr.Element variable appended repeatedly while the caller changes it in between
 		// (what is absorbed must be the value at the time of the call, not something remembered per address)
 		{
+			// one label buffer reused for every operation and rewritten between them ("round-0", "round-1", ...)
+			ti := common.NewTranscript("labels")
+			tr := ref.NewTranscript("labels")
+			lb := []byte("round-0")
+			desc := "one label buffer rewritten between calls:"
+			for i := 0; i < 9; i++ {
+				lb[6] = byte('0' + i)
+				l := string(lb)
+				switch i % 3 {
+				case 0:
+					cmp(desc+fmt.Sprintf(" ChallengeScalar(%q)", l), frToBig(ti.ChallengeScalar(lb)), tr.Challenge(l))
+				case 1:
+					ti.AppendMessage([]byte{byte(i)}, lb)
+					tr.AppendMessage([]byte{byte(i)}, l)
+				default:
+					ti.DomainSep(lb)
+					tr.DomainSep(l)
+				}
+				desc += fmt.Sprintf(" op%d(%q)", i%3, l)
+			}
+			lb[6] = 'x'
+			cmp(desc+" ChallengeScalar(end)", frToBig(ti.ChallengeScalar([]byte("end"))), tr.Challenge("end"))
+		}
+		{
 			ti := common.NewTranscript("alias")
 			tr := ref.NewTranscript("alias")
 			p := banderwagon.Generator
